@@ -2,6 +2,11 @@
 
 package dhcpv4
 
+import (
+	"net"
+	"time"
+)
+
 // Contracts for the DHCPv4 message builders (property C15 of /verif). Compiled only with the build tag "verif"; adds
 // declarations and comments, changes nothing in the package.
 //
@@ -40,6 +45,14 @@ package dhcpv4
 //@   ensures[generic] typeIs(self, OptionGeneric) ==> result == self.(OptionGeneric).Data
 //@   ensures[msgtype] typeIs(self, MessageType) ==> len(result) == 1 && int(result[0]) == int(self.(MessageType)) && fresh(result)
 //@   ensures[ip] typeIs(self, IP) && len(self.(IP)) == 4 ==> string(result) == string(self.(IP))
+//@   ensures[duration] typeIs(self, Duration) && int(self.(Duration)) >= 0 && int(self.(Duration)) < 4294967296000000000 ==> len(result) == 4 && specBE32(string(result)) == int(self.(Duration))/1000000000 && fresh(result)
+//@   ensures[uint16] typeIs(self, Uint16) ==> len(result) == 2 && specBE16(string(result)) == int(self.(Uint16)) && fresh(result)
+
+//@ contract (Duration).ToBytes
+//@   ensures int(d) >= 0 && int(d) < 4294967296000000000 ==> len(result) == 4 && specBE32(string(result)) == int(d)/1000000000 && fresh(result)
+
+//@ contract (Uint16).ToBytes
+//@   ensures len(result) == 2 && specBE16(string(result)) == int(o) && fresh(result)
 
 //@ contract (OptionGeneric).ToBytes
 //@   ensures result == o.Data
@@ -101,6 +114,8 @@ package dhcpv4
 //@   ensures[generic] o != nil && isOpt(option) && typeIs(option.Value, OptionGeneric) ==> o[uint8(codeOf(option.Code))] == option.Value.(OptionGeneric).Data
 //@   ensures[msgtype] o != nil && isOpt(option) && typeIs(option.Value, MessageType) ==> len(o[uint8(codeOf(option.Code))]) == 1 && int(o[uint8(codeOf(option.Code))][0]) == int(option.Value.(MessageType)) && fresh(o[uint8(codeOf(option.Code))])
 //@   ensures[ip] o != nil && isOpt(option) && typeIs(option.Value, IP) && len(option.Value.(IP)) == 4 ==> string(o[uint8(codeOf(option.Code))]) == string(option.Value.(IP))
+//@   ensures[duration] o != nil && isOpt(option) && typeIs(option.Value, Duration) && int(option.Value.(Duration)) >= 0 && int(option.Value.(Duration)) < 4294967296000000000 ==> len(o[uint8(codeOf(option.Code))]) == 4 && specBE32(string(o[uint8(codeOf(option.Code))])) == int(option.Value.(Duration))/1000000000
+//@   ensures[uint16] o != nil && isOpt(option) && typeIs(option.Value, Uint16) ==> len(o[uint8(codeOf(option.Code))]) == 2 && specBE16(string(o[uint8(codeOf(option.Code))])) == int(option.Value.(Uint16))
 //@   ensures[others] o != nil && isOpt(option) ==> optsSameExcept(o, codeOf(option.Code))
 
 // UpdateOption: a packet without option map gets a new one; otherwise the map is kept and updated in place
@@ -111,6 +126,8 @@ package dhcpv4
 //@   ensures[generic] isOpt(opt) && typeIs(opt.Value, OptionGeneric) ==> d.Options[uint8(codeOf(opt.Code))] == opt.Value.(OptionGeneric).Data
 //@   ensures[msgtype] isOpt(opt) && typeIs(opt.Value, MessageType) ==> len(d.Options[uint8(codeOf(opt.Code))]) == 1 && int(d.Options[uint8(codeOf(opt.Code))][0]) == int(opt.Value.(MessageType)) && fresh(d.Options[uint8(codeOf(opt.Code))])
 //@   ensures[ip] isOpt(opt) && typeIs(opt.Value, IP) && len(opt.Value.(IP)) == 4 ==> string(d.Options[uint8(codeOf(opt.Code))]) == string(opt.Value.(IP))
+//@   ensures[duration] isOpt(opt) && typeIs(opt.Value, Duration) && int(opt.Value.(Duration)) >= 0 && int(opt.Value.(Duration)) < 4294967296000000000 ==> len(d.Options[uint8(codeOf(opt.Code))]) == 4 && specBE32(string(d.Options[uint8(codeOf(opt.Code))])) == int(opt.Value.(Duration))/1000000000
+//@   ensures[uint16] isOpt(opt) && typeIs(opt.Value, Uint16) ==> len(d.Options[uint8(codeOf(opt.Code))]) == 2 && specBE16(string(d.Options[uint8(codeOf(opt.Code))])) == int(opt.Value.(Uint16))
 //@   ensures[others] isOpt(opt) && old(d.Options) != nil ==> optsSameExcept(d.Options, codeOf(opt.Code))
 //@   ensures[others-new] isOpt(opt) && old(d.Options) == nil ==> (forall k uint8 :: {mapdom(d.Options, k)} int(k) != codeOf(opt.Code) ==> !has(d.Options, k))
 
@@ -299,3 +316,41 @@ func userVal(k uint8) string { return "" }
 //@   requires d != nil
 //@   modifies &d.Flags, &d.GatewayIPAddr, &d.HopCount
 //@   ensures int(d.Flags) < 32768 && int(d.Flags) % 32768 == int(old(d.Flags)) % 32768 && d.GatewayIPAddr == ip && int(d.HopCount) == (int(old(d.HopCount)) + 1) % 256
+
+// ---------- C17, last sentence: an option set through its typed constructor reads back as the value that was set ----------
+// (for the value types whose encoders are under contract: durations in whole seconds below 2^32 s, 16-bit values,
+// 4-byte addresses, message types)
+
+//@ contract lemmaSetGetLeaseTime
+//@   requires p != nil && int(d) >= 0 && int(d) < 4294967296000000000 && int(d)%1000000000 == 0
+//@   modifies &p.Options, p.Options
+func lemmaSetGetLeaseTime(p *DHCPv4, d time.Duration) {
+	p.UpdateOption(OptIPAddressLeaseTime(d))
+	verifAssert(p.IPAddressLeaseTime(0) == d)
+}
+
+//@ contract lemmaSetGetMaxMessageSize
+//@   requires p != nil
+//@   modifies &p.Options, p.Options
+func lemmaSetGetMaxMessageSize(p *DHCPv4, n uint16) {
+	p.UpdateOption(OptMaxMessageSize(n))
+	got, err := p.MaxMessageSize()
+	verifAssert(err == nil && got == n)
+}
+
+//@ contract lemmaSetGetServerIdentifier
+//@   requires p != nil && len(ip) == 4
+//@   modifies &p.Options, p.Options
+func lemmaSetGetServerIdentifier(p *DHCPv4, ip net.IP) {
+	p.UpdateOption(OptServerIdentifier(ip))
+	got := p.ServerIdentifier()
+	verifAssert(string(got) == string(ip))
+}
+
+//@ contract lemmaSetGetMessageType
+//@   requires p != nil
+//@   modifies &p.Options, p.Options
+func lemmaSetGetMessageType(p *DHCPv4, m MessageType) {
+	p.UpdateOption(OptMessageType(m))
+	verifAssert(p.MessageType() == m)
+}
